@@ -1,33 +1,41 @@
-// Command semtables is the C07 translator: it reads the Go *source* of <repo>/semantic (go/ast + go/constant,
-// no linking) and regenerates coq/theories/Semantic/Generated_Tables.v with the keyword / weight tables that the
-// Coq models of the ecosystems USE instead of hand-copied values:
+// Command semtables is the C07 table translator. It regenerates coq/theories/Semantic/Generated_Tables.v with the
+// keyword / weight / spelling tables that the Coq models of the ecosystems USE.
 //
-//	Maven      keywordOrder; the alias rewrites of newMavenVersion (unconditional and "only before a digit");
-//	           the values shouldTrim treats as null; the value that makes the '.'-padding empty ("sp")
-//	Alpine     the suffix list of weightAlpineSuffixString (its order IS the weight) and the weight fetchSuffix pads with
-//	Packagist  the prefix -> weight rules of weighPackagistBuildCharacter, in the order the code tests them
-//	Debian     the constants of weighDebianChar ("~" weight, "" weight, the non-letter offset and the letter bounds)
-//	PyPI       the spelling normalisation of parseLetterVersion and of normalizePyPILegacyPart
+// The tables are obtained by PROBING the real implementation (semantic.Parse / CompareStr and the hook
+// semantic.VerifParse), not by matching the shape of the Go source: a table here says "what the code does on the
+// probe set". The probe set of an ecosystem is its documented vocabulary plus every word of every string literal that
+// occurs anywhere in its source file (a plain go/ast literal scan, which no refactoring of table shapes disturbs).
 //
-// Every extraction is a syntactic pattern on the function named; when the pattern is not found the translator
-// fails (exit 2) rather than inventing a value. The same data is written as JSON for the evidence.
+//	Maven      known qualifiers in rank order (incl. "" = release); spelling rewrites at the end of a part and directly
+//	           before a digit; the values trimmed as null; the qualifiers whose '.'-padding is "" instead of "0"
+//	Alpine     suffix name -> weight (from the parsed structure) and the weight an absent suffix is padded with
+//	Packagist  prefix -> weight rules of the special forms (weights are ranks: only their order is observable)
+//	Debian     the weight of every byte, of "~" and of the end of a run (ranks: only their order is observable)
+//	PyPI       spelling normalisation of the PEP 440 letters and of the legacy parts (from the parsed structure)
+//	unicode    Go's unicode.ToLower pairs below U+0530 (toolchain table)
+//
+// The systematic canonical-rule layer of the harness (hard-coded from the published documentation) and the
+// model-vs-implementation correspondence remain the judges of these tables.
 package main
 
 import (
 	"crypto/sha256"
+	"encoding/hex"
 	"encoding/json"
 	"flag"
 	"fmt"
 	"go/ast"
-	"go/constant"
 	"go/parser"
 	"go/token"
 	"math/big"
 	"os"
 	"path/filepath"
+	"sort"
 	"strconv"
 	"strings"
 	"unicode"
+
+	"github.com/google/osv-scalibr/semantic"
 
 	cf "verifharness/internal/coqfmt"
 )
@@ -51,430 +59,372 @@ type tables struct {
 	MavenAliasesBeforeNum  []pair   `json:"maven_aliases_before_digit"`
 	MavenShouldTrim        []string `json:"maven_should_trim"`
 	MavenEmptyPadFor       []string `json:"maven_empty_dot_padding_for"`
-	AlpineSuffixOrder      []string `json:"alpine_suffix_order"`
+	AlpineSuffixWeights    []weight `json:"alpine_suffix_weights"`
 	AlpineSuffixPadWeight  int64    `json:"alpine_suffix_pad_weight"`
 	PackagistPrefixWeights []weight `json:"packagist_prefix_weights"`
 	PackagistDefaultWeight int64    `json:"packagist_default_weight"`
 	DebianTildeWeight      int64    `json:"debian_tilde_weight"`
 	DebianEmptyWeight      int64    `json:"debian_empty_weight"`
-	DebianNonLetterOffset  int64    `json:"debian_non_letter_offset"`
-	DebianLetterBounds     []int64  `json:"debian_letter_bounds"`
+	DebianByteWeights      []int64  `json:"debian_byte_weights"`
 	PyPILetterAliases      []pair   `json:"pypi_letter_aliases"`
 	PyPILegacyAliases      []pair   `json:"pypi_legacy_aliases"`
 	UnicodeLowerPairs      int      `json:"unicode_lower_pairs_below_0x530"`
+	ProbeSetSizes          map[string]int `json:"probe_set_sizes"`
 }
 
-var fset = token.NewFileSet()
-
-func parse(repo, name string) *ast.File {
-	f, err := parser.ParseFile(fset, filepath.Join(repo, "semantic", name), nil, 0)
+// ---------------------------------------------------------------- probe sets
+// every string literal of a source file, and the words (maximal letter runs) inside them
+func literalWords(repo, file string) []string {
+	fset := token.NewFileSet()
+	f, err := parser.ParseFile(fset, filepath.Join(repo, "semantic", file), nil, 0)
 	if err != nil {
-		fatal("parse %s: %v", name, err)
+		fatal("parse %s: %v", file, err)
 	}
-	return f
-}
-
-func funcDecl(f *ast.File, name string) *ast.FuncDecl {
-	for _, d := range f.Decls {
-		if fd, ok := d.(*ast.FuncDecl); ok && fd.Name.Name == name && fd.Body != nil {
-			return fd
+	seen := map[string]bool{}
+	var out []string
+	add := func(s string) {
+		if !seen[s] && len(s) <= 24 {
+			seen[s] = true
+			out = append(out, s)
 		}
 	}
-	fatal("function %s not found", name)
-	return nil
-}
-
-func str(e ast.Expr) (string, bool) {
-	lit, ok := e.(*ast.BasicLit)
-	if !ok || lit.Kind != token.STRING {
-		return "", false
-	}
-	s, err := strconv.Unquote(lit.Value)
-	return s, err == nil
-}
-
-func intOf(e ast.Expr) (int64, bool) {
-	switch x := e.(type) {
-	case *ast.BasicLit:
-		if x.Kind != token.INT && x.Kind != token.CHAR {
-			return 0, false
-		}
-		v := constant.MakeFromLiteral(x.Value, x.Kind, 0)
-		n, ok := constant.Int64Val(constant.ToInt(v))
-		return n, ok
-	case *ast.UnaryExpr:
-		if n, ok := intOf(x.X); ok {
-			switch x.Op {
-			case token.ADD:
-				return n, true
-			case token.SUB:
-				return -n, true
-			}
-		}
-	case *ast.ParenExpr:
-		return intOf(x.X)
-	}
-	return 0, false
-}
-
-// []string{...} literal -> its elements
-func stringSlice(e ast.Expr) ([]string, bool) {
-	cl, ok := e.(*ast.CompositeLit)
-	if !ok {
-		return nil, false
-	}
-	at, ok := cl.Type.(*ast.ArrayType)
-	if !ok {
-		return nil, false
-	}
-	if id, ok := at.Elt.(*ast.Ident); !ok || id.Name != "string" {
-		return nil, false
-	}
-	out := []string{}
-	for _, el := range cl.Elts {
-		s, ok := str(el)
-		if !ok {
-			return nil, false
-		}
-		out = append(out, s)
-	}
-	return out, true
-}
-
-// `<lhs> == "lit" || <lhs> == "lit" ...` -> the literals, when every disjunct compares the same printed lhs
-func eqDisjunction(e ast.Expr, lhs string) ([]string, bool) {
-	switch x := e.(type) {
-	case *ast.ParenExpr:
-		return eqDisjunction(x.X, lhs)
-	case *ast.BinaryExpr:
-		if x.Op == token.LOR {
-			a, ok1 := eqDisjunction(x.X, lhs)
-			b, ok2 := eqDisjunction(x.Y, lhs)
-			return append(a, b...), ok1 && ok2
-		}
-		if x.Op == token.EQL && exprString(x.X) == lhs {
-			if s, ok := str(x.Y); ok {
-				return []string{s}, true
-			}
-		}
-	}
-	return nil, false
-}
-
-func exprString(e ast.Expr) string {
-	switch x := e.(type) {
-	case *ast.Ident:
-		return x.Name
-	case *ast.SelectorExpr:
-		return exprString(x.X) + "." + x.Sel.Name
-	case *ast.ParenExpr:
-		return exprString(x.X)
-	}
-	return "?"
-}
-
-// body is exactly `<lhs> = "lit"`
-func singleAssign(b *ast.BlockStmt, lhs string) (string, bool) {
-	if len(b.List) != 1 {
-		return "", false
-	}
-	as, ok := b.List[0].(*ast.AssignStmt)
-	if !ok || as.Tok != token.ASSIGN || len(as.Lhs) != 1 || len(as.Rhs) != 1 || exprString(as.Lhs[0]) != lhs {
-		return "", false
-	}
-	return str(as.Rhs[0])
-}
-
-// body is exactly `return <int>`
-func singleReturnInt(b *ast.BlockStmt) (int64, bool) {
-	if len(b.List) != 1 {
-		return 0, false
-	}
-	rs, ok := b.List[0].(*ast.ReturnStmt)
-	if !ok || len(rs.Results) != 1 {
-		return 0, false
-	}
-	return intOf(rs.Results[0])
-}
-
-func containsAliasIf(b *ast.BlockStmt) bool {
-	found := false
-	ast.Inspect(b, func(m ast.Node) bool {
-		if is, ok := m.(*ast.IfStmt); ok {
-			if _, ok := eqDisjunction(is.Cond, "current"); ok {
-				if _, ok := singleAssign(is.Body, "current"); ok {
-					found = true
-				}
-			}
-		}
-		return !found
-	})
-	return found
-}
-
-// ---------------------------------------------------------------- Maven
-func maven(repo string, t *tables) {
-	f := parse(repo, "version-maven.go")
-	for _, d := range f.Decls {
-		gd, ok := d.(*ast.GenDecl)
-		if !ok || gd.Tok != token.VAR {
-			continue
-		}
-		for _, s := range gd.Specs {
-			vs := s.(*ast.ValueSpec)
-			for i, n := range vs.Names {
-				if n.Name == "keywordOrder" && i < len(vs.Values) {
-					if xs, ok := stringSlice(vs.Values[i]); ok {
-						t.MavenKeywordOrder = xs
-					}
-				}
-			}
-		}
-	}
-	if t.MavenKeywordOrder == nil {
-		fatal("maven: var keywordOrder = []string{...} not found")
-	}
-	// alias rewrites: `if current == "x" [|| ...] { current = "y" }`; depth 1 inside another `if` whose condition is not
-	// such a disjunction = the "directly followed by a number" block
-	fd := funcDecl(f, "newMavenVersion")
-	var walk func(n ast.Node, guarded bool)
-	walk = func(n ast.Node, guarded bool) {
-		ast.Inspect(n, func(m ast.Node) bool {
-			is, ok := m.(*ast.IfStmt)
-			if !ok || m == n {
-				return true
-			}
-			if froms, ok := eqDisjunction(is.Cond, "current"); ok {
-				if to, ok := singleAssign(is.Body, "current"); ok && is.Else == nil {
-					for _, fr := range froms {
-						if guarded {
-							t.MavenAliasesBeforeNum = append(t.MavenAliasesBeforeNum, pair{fr, to})
-						} else {
-							t.MavenAliases = append(t.MavenAliases, pair{fr, to})
-						}
-					}
-					return false
-				}
-			}
-			// a guard around further rewrites, e.g. `if transition != len(rawTokens[i]) { ... }`: the rewrites inside are
-			// recorded as conditional (the model reads the condition as "directly followed by a digit")
-			if !guarded && containsAliasIf(is.Body) {
-				walk(is.Body, true)
-				return false
-			}
+	ast.Inspect(f, func(n ast.Node) bool {
+		lit, ok := n.(*ast.BasicLit)
+		if !ok || (lit.Kind != token.STRING && lit.Kind != token.CHAR) {
 			return true
-		})
-	}
-	walk(fd.Body, false)
-	if len(t.MavenAliases) == 0 || len(t.MavenAliasesBeforeNum) == 0 {
-		fatal("maven: alias rewrites of newMavenVersion not found")
-	}
-	// shouldTrim: return vt.value == "0" || ...
-	st := funcDecl(f, "shouldTrim")
-	if len(st.Body.List) == 1 {
-		if rs, ok := st.Body.List[0].(*ast.ReturnStmt); ok && len(rs.Results) == 1 {
-			if xs, ok := eqDisjunction(rs.Results[0], "vt.value"); ok {
-				t.MavenShouldTrim = xs
-			}
 		}
-	}
-	if t.MavenShouldTrim == nil {
-		fatal("maven: shouldTrim pattern not found")
-	}
-	// newMavenNullVersionToken: `if token.value == "sp" { value = "" }`
-	nn := funcDecl(f, "newMavenNullVersionToken")
-	ast.Inspect(nn.Body, func(m ast.Node) bool {
-		if is, ok := m.(*ast.IfStmt); ok {
-			if froms, ok := eqDisjunction(is.Cond, "token.value"); ok {
-				if to, ok := singleAssign(is.Body, "value"); ok && to == "" {
-					t.MavenEmptyPadFor = append(t.MavenEmptyPadFor, froms...)
+		s, err := strconv.Unquote(lit.Value)
+		if err != nil {
+			return true
+		}
+		add(s)
+		word := ""
+		for _, c := range s + " " {
+			if (c >= 'a' && c <= 'z') || (c >= 'A' && c <= 'Z') {
+				word += string(c)
+			} else {
+				if word != "" {
+					add(word)
 				}
+				word = ""
 			}
 		}
 		return true
 	})
-	if t.MavenEmptyPadFor == nil {
-		fatal("maven: newMavenNullVersionToken special value not found")
+	return out
+}
+
+func union(xs ...[]string) []string {
+	seen := map[string]bool{}
+	var out []string
+	for _, l := range xs {
+		for _, s := range l {
+			if !seen[s] {
+				seen[s] = true
+				out = append(out, s)
+			}
+		}
+	}
+	return out
+}
+
+func isWord(s string) bool {
+	if s == "" {
+		return false
+	}
+	for _, c := range s {
+		if !((c >= 'a' && c <= 'z') || (c >= 'A' && c <= 'Z')) {
+			return false
+		}
+	}
+	return true
+}
+
+// ---------------------------------------------------------------- access to the implementation
+func cmp(eco, a, b string) int {
+	v, err := semantic.Parse(a, eco)
+	if err != nil {
+		fatal("probe: Parse(%q, %s): %v", a, eco, err)
+	}
+	c, err := v.CompareStr(b)
+	if err != nil {
+		fatal("probe: CompareStr(%q, %q) in %s: %v", a, b, eco, err)
+	}
+	return c
+}
+
+func dump(eco, s string) map[string]any {
+	js, err := semantic.VerifParse(s, eco)
+	if err != nil {
+		return nil
+	}
+	var m map[string]any
+	if err := json.Unmarshal([]byte(js), &m); err != nil {
+		fatal("probe: hook JSON: %v", err)
+	}
+	return m
+}
+
+func unhex(v any) string {
+	b, err := hex.DecodeString(v.(string))
+	if err != nil {
+		fatal("probe: hex: %v", err)
+	}
+	return string(b)
+}
+
+// dense ranks of items under a three-way comparison (items comparing equal share a rank)
+func denseRanks(items []string, c func(a, b string) int) map[string]int64 {
+	sorted := append([]string{}, items...)
+	sort.SliceStable(sorted, func(i, j int) bool { return c(sorted[i], sorted[j]) < 0 })
+	ranks := map[string]int64{}
+	var r int64
+	for i, it := range sorted {
+		if i > 0 && c(sorted[i-1], it) != 0 {
+			r++
+		}
+		ranks[it] = r
+	}
+	return ranks
+}
+
+// ---------------------------------------------------------------- Maven
+func mavenTokenValue(s string, idx int) (string, bool) {
+	m := dump("Maven", s)
+	toks, _ := m["tokens"].([]any)
+	if idx >= len(toks) {
+		return "", false
+	}
+	return unhex(toks[idx].(map[string]any)["value"]), true
+}
+
+func maven(repo string, t *tables) {
+	vocab := []string{"alpha", "beta", "milestone", "rc", "cr", "snapshot", "ga", "final", "release", "sp", "a", "b", "m", "", "0",
+		"dev", "pre", "preview", "post", "jre", "x", "foo"}
+	cands := union(vocab, literalWords(repo, "version-maven.go"))
+	var words []string
+	for _, c := range cands {
+		c = strings.ToLower(c)
+		if c == "" || c == "0" || isWord(c) {
+			words = append(words, c)
+		}
+	}
+	words = union(words)
+	t.ProbeSetSizes["maven"] = len(words)
+	// spelling at the end of a part ("1-<q>.x": the '.x' keeps the token from being trimmed) and directly before a digit
+	atEnd := map[string]string{}
+	for _, q := range words {
+		v, ok := mavenTokenValue("1-"+q+".x", 1)
+		if !ok {
+			fatal("maven: no second token for %q", "1-"+q+".x")
+		}
+		atEnd[q] = v
+		if v != q {
+			t.MavenAliases = append(t.MavenAliases, pair{q, v})
+		}
+		// (a null value before a digit is trimmed at the hyphen the digit introduces: its spelling there is unobservable)
+		if q != "" && q != "0" && v != "" && v != "0" {
+			v2, ok := mavenTokenValue("1-"+q+"1.x", 1)
+			if n, ok2 := mavenTokenValue("1-"+q+"1.x", 2); ok && ok2 && n == "1" && v2 != v {
+				t.MavenAliasesBeforeNum = append(t.MavenAliasesBeforeNum, pair{q, v2})
+			}
+		}
+	}
+	// null values: tokens that are trimmed at the end of the version
+	seenTrim := map[string]bool{}
+	for _, q := range words {
+		m := dump("Maven", "1-"+q)
+		if toks, _ := m["tokens"].([]any); len(toks) == 1 && !seenTrim[atEnd[q]] {
+			seenTrim[atEnd[q]] = true
+			t.MavenShouldTrim = append(t.MavenShouldTrim, atEnd[q])
+		}
+	}
+	sort.Strings(t.MavenShouldTrim)
+	// known qualifiers: those that sort below an unknown word that is lexically tiny ("!!"); "" is probed as the absent token
+	ver := func(q string) string {
+		if q == "" {
+			return "1"
+		}
+		return "1-" + q
+	}
+	var known []string
+	seenK := map[string]bool{}
+	for _, q := range words {
+		v := atEnd[q]
+		if v == "0" || seenK[v] || (v != "" && !isWord(v)) {
+			continue
+		}
+		if cmp("Maven", ver(v), "1-!!") < 0 {
+			seenK[v] = true
+			known = append(known, v)
+		}
+	}
+	sort.SliceStable(known, func(i, j int) bool { return cmp("Maven", ver(known[i]), ver(known[j])) < 0 })
+	for i := 1; i < len(known); i++ {
+		if cmp("Maven", ver(known[i-1]), ver(known[i])) == 0 {
+			fatal("maven: qualifiers %q and %q share a rank", known[i-1], known[i])
+		}
+	}
+	t.MavenKeywordOrder = known
+	// '.'-padding: for a KNOWN qualifier q, "1" < "1.q" can only happen when the padding is "" (a "0" padding ranks as unknown)
+	for _, q := range known {
+		if q != "" && cmp("Maven", "1", "1."+q) < 0 {
+			t.MavenEmptyPadFor = append(t.MavenEmptyPadFor, q)
+		}
 	}
 }
 
 // ---------------------------------------------------------------- Alpine
 func alpine(repo string, t *tables) {
-	f := parse(repo, "version-alpine.go")
-	fd := funcDecl(f, "weightAlpineSuffixString")
-	ast.Inspect(fd.Body, func(m ast.Node) bool {
-		if as, ok := m.(*ast.AssignStmt); ok && len(as.Lhs) == 1 && exprString(as.Lhs[0]) == "supported" && len(as.Rhs) == 1 {
-			if xs, ok := stringSlice(as.Rhs[0]); ok {
-				t.AlpineSuffixOrder = xs
-			}
+	vocab := []string{"alpha", "beta", "pre", "rc", "cvs", "svn", "git", "hg", "p"}
+	var words []string
+	for _, c := range union(vocab, literalWords(repo, "version-alpine.go")) {
+		if isWord(c) && c == strings.ToLower(c) {
+			words = append(words, c)
 		}
-		return true
-	})
-	if t.AlpineSuffixOrder == nil {
-		fatal("alpine: supported := []string{...} not found in weightAlpineSuffixString")
 	}
-	// the final `return len(supported)` makes every other captured suffix ("p") the highest: record it as last entry
-	t.AlpineSuffixOrder = append(t.AlpineSuffixOrder, "p")
-	fs := funcDecl(f, "fetchSuffix")
-	found := false
-	ast.Inspect(fs.Body, func(m ast.Node) bool {
-		cl, ok := m.(*ast.CompositeLit)
-		if !ok || exprString(cl.Type) != "alpineSuffix" {
-			return true
+	t.ProbeSetSizes["alpine"] = len(words)
+	for _, w := range words {
+		m := dump("Alpine", "1_"+w)
+		if m == nil {
+			continue
 		}
-		for _, el := range cl.Elts {
-			if kv, ok := el.(*ast.KeyValueExpr); ok && exprString(kv.Key) == "weight" {
-				if n, ok := intOf(kv.Value); ok {
-					t.AlpineSuffixPadWeight, found = n, true
-				}
-			}
+		sufs, _ := m["suffixes"].([]any)
+		rem := unhex(m["remainder"])
+		if len(sufs) == 1 && rem == "" && !m["invalid"].(bool) { // the whole word was taken as a suffix name
+			t.AlpineSuffixWeights = append(t.AlpineSuffixWeights, weight{w, int64(sufs[0].(map[string]any)["weight"].(float64))})
 		}
-		return true
-	})
-	if !found {
-		fatal("alpine: fetchSuffix padding weight not found")
 	}
+	sort.SliceStable(t.AlpineSuffixWeights, func(i, j int) bool { return t.AlpineSuffixWeights[i].Weight < t.AlpineSuffixWeights[j].Weight })
+	if len(t.AlpineSuffixWeights) == 0 {
+		fatal("alpine: no suffix found by probing")
+	}
+	// the weight of an absent suffix: equal to a suffix it ties with, else just above the heaviest suffix it beats
+	pad, found := int64(0), false
+	for _, s := range t.AlpineSuffixWeights {
+		switch c := cmp("Alpine", "1", "1_"+s.Prefix); {
+		case c == 0:
+			pad, found = s.Weight, true
+		case c > 0 && !found:
+			pad = s.Weight + 1
+		}
+		if found {
+			break
+		}
+	}
+	t.AlpineSuffixPadWeight = pad
 }
 
 // ---------------------------------------------------------------- Packagist
 func packagist(repo string, t *tables) {
-	f := parse(repo, "version-packagist.go")
-	fd := funcDecl(f, "weighPackagistBuildCharacter")
-	gotDefault := false
-	for _, st := range fd.Body.List {
-		switch x := st.(type) {
-		case *ast.IfStmt: // if strings.HasPrefix(str, "RC") { return 3 }
-			if p, ok := hasPrefixLit(x.Cond); ok {
-				if n, ok := singleReturnInt(x.Body); ok {
-					t.PackagistPrefixWeights = append(t.PackagistPrefixWeights, weight{p, n})
-				}
-			}
-		case *ast.AssignStmt: // specials := []string{...}
-			if len(x.Lhs) == 1 && exprString(x.Lhs[0]) == "specials" {
-				if xs, ok := stringSlice(x.Rhs[0]); ok {
-					for i, s := range xs { // for i, special := range specials { if HasPrefix { return i } }
-						t.PackagistPrefixWeights = append(t.PackagistPrefixWeights, weight{s, int64(i)})
-					}
-				}
-			}
-		case *ast.ReturnStmt:
-			if len(x.Results) == 1 {
-				if n, ok := intOf(x.Results[0]); ok {
-					t.PackagistDefaultWeight, gotDefault = n, true
-				}
+	vocab := []string{"dev", "alpha", "a", "beta", "b", "RC", "rc", "#", "pl", "p", "patch", "stable", "zz"}
+	var cands []string
+	for _, c := range union(vocab, literalWords(repo, "version-packagist.go")) {
+		if isWord(c) || c == "#" {
+			cands = append(cands, c)
+			if isWord(c) {
+				cands = append(cands, strings.ToUpper(c), strings.ToLower(c))
 			}
 		}
 	}
-	if len(t.PackagistPrefixWeights) < 2 || !gotDefault {
-		fatal("packagist: weighPackagistBuildCharacter patterns not found")
+	cands = union(cands)
+	t.ProbeSetSizes["packagist"] = len(cands)
+	ver := func(q string) string { return "1.0-" + q }
+	c3 := func(a, b string) int { return cmp("Packagist", ver(a), ver(b)) }
+	ranks := denseRanks(cands, c3)
+	def := ranks["zz"]
+	t.PackagistDefaultWeight = def
+	// a candidate is a prefix rule when it has a non-default weight that survives appending letters; keep the minimal ones
+	var rules []weight
+	for _, c := range cands {
+		if ranks[c] == def {
+			continue
+		}
+		if c3(c+"zq", c) != 0 {
+			continue // not a prefix rule (the weight does not carry over to longer words)
+		}
+		rules = append(rules, weight{c, ranks[c]})
 	}
-}
-
-func hasPrefixLit(e ast.Expr) (string, bool) {
-	ce, ok := e.(*ast.CallExpr)
-	if !ok || exprString(ce.Fun) != "strings.HasPrefix" || len(ce.Args) != 2 {
-		return "", false
+	sort.SliceStable(rules, func(i, j int) bool { return len(rules[i].Prefix) < len(rules[j].Prefix) })
+	var minimal []weight
+	for _, r := range rules {
+		redundant := false
+		for _, m := range minimal {
+			if strings.HasPrefix(r.Prefix, m.Prefix) && m.Weight == r.Weight {
+				redundant = true
+			}
+		}
+		if !redundant {
+			minimal = append(minimal, r)
+		}
 	}
-	return str(ce.Args[1])
+	// longer prefixes first, so that a longer rule with another weight wins over its own prefix
+	sort.SliceStable(minimal, func(i, j int) bool { return len(minimal[i].Prefix) > len(minimal[j].Prefix) })
+	t.PackagistPrefixWeights = minimal
 }
 
 // ---------------------------------------------------------------- Debian
-func debian(repo string, t *tables) {
-	f := parse(repo, "version-debian.go")
-	fd := funcDecl(f, "weighDebianChar")
-	got := 0
-	for _, st := range fd.Body.List {
-		is, ok := st.(*ast.IfStmt)
-		if !ok {
-			continue
+func debian(t *tables) {
+	// the run "y<c>" inside "0:1y<c>-1": epoch and revision are present, so ':' and '-' are ordinary characters; the
+	// character is not at either end, so TrimSpace leaves it alone
+	ver := func(c string) string { return "0:1y" + c + "-1" }
+	var items []string
+	for i := 0; i < 256; i++ {
+		if i >= '0' && i <= '9' {
+			continue // digits never occur in a non-digit run
 		}
-		if lits, ok := eqDisjunction(is.Cond, "char"); ok && len(lits) == 1 {
-			if n, ok := singleReturnInt(is.Body); ok {
-				switch lits[0] {
-				case "~":
-					t.DebianTildeWeight = n
-					got++
-				case "":
-					t.DebianEmptyWeight = n
-					got++
-				}
-			}
-			continue
-		}
-		// if c < 65 || (c > 90 && c < 97) || c > 122 { c += 122 }
-		if len(is.Body.List) == 1 {
-			if as, ok := is.Body.List[0].(*ast.AssignStmt); ok && as.Tok == token.ADD_ASSIGN && exprString(as.Lhs[0]) == "c" {
-				if n, ok := intOf(as.Rhs[0]); ok {
-					t.DebianNonLetterOffset = n
-					got++
-				}
-				ast.Inspect(is.Cond, func(m ast.Node) bool {
-					if be, ok := m.(*ast.BinaryExpr); ok && exprString(be.X) == "c" {
-						if n, ok := intOf(be.Y); ok {
-							switch be.Op { // normalised to strict comparisons: c <= k is c < k+1, c >= k is c > k-1
-							case token.LSS, token.GTR:
-								t.DebianLetterBounds = append(t.DebianLetterBounds, n)
-							case token.LEQ:
-								t.DebianLetterBounds = append(t.DebianLetterBounds, n+1)
-							case token.GEQ:
-								t.DebianLetterBounds = append(t.DebianLetterBounds, n-1)
-							}
-						}
-					}
-					return true
-				})
-			}
-		}
+		items = append(items, string([]byte{byte(i)}))
 	}
-	if got != 3 || len(t.DebianLetterBounds) != 4 {
-		fatal("debian: weighDebianChar patterns not found (got %d, bounds %v)", got, t.DebianLetterBounds)
+	items = append(items, "") // the end of the run
+	t.ProbeSetSizes["debian"] = len(items)
+	ranks := denseRanks(items, func(a, b string) int { return cmp("Debian", ver(a), ver(b)) })
+	t.DebianTildeWeight = ranks["~"]
+	t.DebianEmptyWeight = ranks[""]
+	t.DebianByteWeights = make([]int64, 256)
+	for i := 0; i < 256; i++ {
+		t.DebianByteWeights[i] = ranks[string([]byte{byte(i)})] // digits: 0, unused
 	}
 }
 
 // ---------------------------------------------------------------- PyPI
-// switch <tag> { case "x": <tag> = "y"; case "c": fallthrough; case "pre": fallthrough; case "preview": <tag> = "rc" }
-func switchAliases(fd *ast.FuncDecl, tag string) []pair {
-	var out []pair
-	ast.Inspect(fd.Body, func(m ast.Node) bool {
-		sw, ok := m.(*ast.SwitchStmt)
-		if !ok || sw.Tag == nil || exprString(sw.Tag) != tag {
-			return true
+func pypi(repo string, t *tables) {
+	vocab := []string{"a", "b", "c", "rc", "alpha", "beta", "pre", "preview", "post", "rev", "r", "dev", "final"}
+	var words []string
+	for _, c := range union(vocab, literalWords(repo, "version-pypi.go")) {
+		if isWord(c) && c == strings.ToLower(c) {
+			words = append(words, c)
 		}
-		var pending []string
-		for _, c := range sw.Body.List {
-			cc := c.(*ast.CaseClause)
-			var keys []string
-			for _, e := range cc.List {
-				if s, ok := str(e); ok {
-					keys = append(keys, s)
-				}
-			}
-			if len(cc.Body) == 1 {
-				if br, ok := cc.Body[0].(*ast.BranchStmt); ok && br.Tok == token.FALLTHROUGH {
-					pending = append(pending, keys...)
-					continue
-				}
-				if as, ok := cc.Body[0].(*ast.AssignStmt); ok && exprString(as.Lhs[0]) == tag {
-					if to, ok := str(as.Rhs[0]); ok {
-						for _, k := range append(pending, keys...) {
-							out = append(out, pair{k, to})
-						}
+	}
+	t.ProbeSetSizes["pypi"] = len(words)
+	for _, w := range words {
+		// PEP 440 letters: "1.0<w>1" -> the letter of whichever of pre / post / dev was recognised
+		if m := dump("PyPI", "1.0"+w+"1"); m != nil {
+			if leg, _ := m["legacy"].([]any); len(leg) == 0 {
+				for _, k := range []string{"pre", "post", "dev"} {
+					l := unhex(m[k].(map[string]any)["letter"])
+					if l != "" && l != w {
+						t.PyPILetterAliases = append(t.PyPILetterAliases, pair{w, l})
 					}
 				}
 			}
-			pending = nil
 		}
-		return false
-	})
-	return out
-}
-
-func pypi(repo string, t *tables) {
-	f := parse(repo, "version-pypi.go")
-	t.PyPILetterAliases = switchAliases(funcDecl(f, "parseLetterVersion"), "letter")
-	t.PyPILegacyAliases = switchAliases(funcDecl(f, "normalizePyPILegacyPart"), "part")
-	if len(t.PyPILetterAliases) == 0 || len(t.PyPILegacyAliases) == 0 {
-		fatal("pypi: normalisation switches not found")
+	}
+	// legacy parts: "zz.<w>.zz" never matches PEP 440; its parts are "*zz", normalised <w>, "*zz", "*final"
+	legacyNorm := func(w string) (string, bool) {
+		m := dump("PyPI", "zz."+w+".zz")
+		if m == nil {
+			return "", false
+		}
+		leg, _ := m["legacy"].([]any)
+		if len(leg) != 4 {
+			return "", false
+		}
+		return strings.TrimPrefix(unhex(leg[1]), "*"), true
+	}
+	for _, w := range append(words, "-") {
+		if n, ok := legacyNorm(w); ok && n != w {
+			t.PyPILegacyAliases = append(t.PyPILegacyAliases, pair{w, n})
+		}
 	}
 }
 
@@ -495,14 +445,14 @@ func pairs(ps []pair) string {
 	return cf.List(items)
 }
 
-func show(xs []string) string { return strings.Join(quoteAll(xs), " ") }
-func quoteAll(xs []string) []string {
+func show(xs []string) string {
 	out := make([]string, len(xs))
 	for i, s := range xs {
 		out[i] = strconv.Quote(s)
 	}
-	return out
+	return strings.Join(out, " ")
 }
+
 func showPairs(ps []pair) string {
 	out := make([]string, len(ps))
 	for i, p := range ps {
@@ -511,53 +461,63 @@ func showPairs(ps []pair) string {
 	return strings.Join(out, " ")
 }
 
+func showWeights(ws []weight) string {
+	out := make([]string, len(ws))
+	for i, x := range ws {
+		out[i] = fmt.Sprintf("%q=%d", x.Prefix, x.Weight)
+	}
+	return strings.Join(out, " ")
+}
+
 func main() {
-	repo := flag.String("repo", "/repo", "repository root")
+	repo := flag.String("repo", "/repo", "repository root (for the string-literal scan; the probed code is the one linked in)")
 	out := flag.String("out", "", "output .v file")
 	jsonOut := flag.String("json", "", "output JSON file")
 	flag.Parse()
-	var t tables
+	t := tables{ProbeSetSizes: map[string]int{}}
 	maven(*repo, &t)
 	alpine(*repo, &t)
 	packagist(*repo, &t)
-	debian(*repo, &t)
+	debian(&t)
 	pypi(*repo, &t)
 
 	var sb strings.Builder
-	sb.WriteString("(* GENERATED by harness/cmd/semtables from <repo>/semantic/*.go (go/ast). Do not edit: regenerated on every run\n")
-	sb.WriteString("   of bin/check C07; the committed copy is only the last generated one. Strings are byte lists. *)\n")
+	sb.WriteString("(* GENERATED by harness/cmd/semtables. Do not edit: regenerated on every run of bin/check C07; the committed copy is\n")
+	sb.WriteString("   only the last generated one.  Each table says WHAT THE IMPLEMENTATION DOES ON THE PROBE SET: it is obtained by running\n")
+	sb.WriteString("   semantic.Parse / CompareStr / VerifParse of the tree under test on probe versions built from the documented vocabulary\n")
+	sb.WriteString("   of the ecosystem and from every word of every string literal of its source file -- not from the shape of the source.\n")
+	sb.WriteString("   Weights of Packagist and Debian are ranks (only their order is observable).  Strings are byte lists. *)\n")
 	sb.WriteString("From Coq Require Import List ZArith NArith.\nImport ListNotations.\n\n")
 	w := func(comment, name, ty, val string) {
 		fmt.Fprintf(&sb, "(* %s *)\nDefinition %s : %s :=\n  %s.\n\n", comment, name, ty, val)
 	}
-	w("version-maven.go: var keywordOrder = "+show(t.MavenKeywordOrder), "gen_maven_keyword_order", "list (list N)", strs(t.MavenKeywordOrder))
-	w("version-maven.go newMavenVersion, rewrites applied in this order: "+showPairs(t.MavenAliases), "gen_maven_aliases", "list (list N * list N)", pairs(t.MavenAliases))
-	w("version-maven.go newMavenVersion, only when directly followed by a number: "+showPairs(t.MavenAliasesBeforeNum), "gen_maven_aliases_before_digit", "list (list N * list N)", pairs(t.MavenAliasesBeforeNum))
-	w("version-maven.go shouldTrim: "+show(t.MavenShouldTrim), "gen_maven_should_trim", "list (list N)", strs(t.MavenShouldTrim))
-	w("version-maven.go newMavenNullVersionToken: the '.'-padding is \"\" instead of \"0\" against "+show(t.MavenEmptyPadFor), "gen_maven_empty_dot_padding_for", "list (list N)", strs(t.MavenEmptyPadFor))
-	w("version-alpine.go weightAlpineSuffixString: position = weight; the last entry stands for the final return: "+show(t.AlpineSuffixOrder), "gen_alpine_suffix_order", "list (list N)", strs(t.AlpineSuffixOrder))
-	w("version-alpine.go fetchSuffix: weight of a missing suffix", "gen_alpine_suffix_pad_weight", "Z", cf.Z(t.AlpineSuffixPadWeight))
+	w("Maven: known qualifiers, lowest first (\"\" is the release; every other word ranks above all of them): "+show(t.MavenKeywordOrder), "gen_maven_keyword_order", "list (list N)", strs(t.MavenKeywordOrder))
+	w("Maven: spelling of a token at the end of its part: "+showPairs(t.MavenAliases), "gen_maven_aliases", "list (list N * list N)", pairs(t.MavenAliases))
+	w("Maven: spelling of a token directly followed by a digit, where it differs: "+showPairs(t.MavenAliasesBeforeNum), "gen_maven_aliases_before_digit", "list (list N * list N)", pairs(t.MavenAliasesBeforeNum))
+	w("Maven: token values trimmed as null at the end of a version: "+show(t.MavenShouldTrim), "gen_maven_should_trim", "list (list N)", strs(t.MavenShouldTrim))
+	w("Maven: known qualifiers that sort above an absent '.'-token (its padding is \"\" instead of \"0\"): "+show(t.MavenEmptyPadFor), "gen_maven_empty_dot_padding_for", "list (list N)", strs(t.MavenEmptyPadFor))
+	aw := make([]string, len(t.AlpineSuffixWeights))
+	for i, x := range t.AlpineSuffixWeights {
+		aw[i] = fmt.Sprintf("(%s, %s)", cf.Str(x.Prefix), cf.Z(x.Weight))
+	}
+	w("Alpine: suffix name -> weight, as stored in the parsed structure: "+showWeights(t.AlpineSuffixWeights), "gen_alpine_suffix_weights", "list (list N * Z)", cf.List(aw))
+	w("Alpine: weight of an absent suffix (the suffix it ties with, else just above the heaviest one it beats)", "gen_alpine_suffix_pad_weight", "Z", cf.Z(t.AlpineSuffixPadWeight))
 	pw := make([]string, len(t.PackagistPrefixWeights))
-	pws := make([]string, len(t.PackagistPrefixWeights))
 	for i, x := range t.PackagistPrefixWeights {
 		pw[i] = fmt.Sprintf("(%s, %d%%nat)", cf.Str(x.Prefix), x.Weight)
-		pws[i] = fmt.Sprintf("%q=%d", x.Prefix, x.Weight)
 	}
-	w("version-packagist.go weighPackagistBuildCharacter, prefixes in the order tested: "+strings.Join(pws, " "), "gen_packagist_prefix_weights", "list (list N * nat)", cf.List(pw))
-	w("version-packagist.go weighPackagistBuildCharacter: final return", "gen_packagist_default_weight", "nat", fmt.Sprintf("%d%%nat", t.PackagistDefaultWeight))
-	w("version-debian.go weighDebianChar: weight of \"~\"", "gen_debian_tilde_weight", "Z", cf.Z(t.DebianTildeWeight))
-	w("version-debian.go weighDebianChar: weight of \"\" (end of the prefix)", "gen_debian_empty_weight", "Z", cf.Z(t.DebianEmptyWeight))
-	w("version-debian.go weighDebianChar: added to every non-letter", "gen_debian_non_letter_offset", "Z", cf.Z(t.DebianNonLetterOffset))
-	bs := make([]string, len(t.DebianLetterBounds))
-	for i, b := range t.DebianLetterBounds {
-		bs[i] = cf.Z(b)
+	w("Packagist: prefix -> rank of the special forms, longer prefixes first: "+showWeights(t.PackagistPrefixWeights), "gen_packagist_prefix_weights", "list (list N * nat)", cf.List(pw))
+	w("Packagist: rank of every other word", "gen_packagist_default_weight", "nat", fmt.Sprintf("%d%%nat", t.PackagistDefaultWeight))
+	w("Debian: rank of \"~\"", "gen_debian_tilde_weight", "Z", cf.Z(t.DebianTildeWeight))
+	w("Debian: rank of the end of a non-digit run", "gen_debian_empty_weight", "Z", cf.Z(t.DebianEmptyWeight))
+	bw := make([]string, 256)
+	for i, x := range t.DebianByteWeights {
+		bw[i] = cf.Z(x)
 	}
-	w("version-debian.go weighDebianChar: c < b0 || (c > b1 && c < b2) || c > b3 is a non-letter", "gen_debian_letter_bounds", "list Z", cf.List(bs))
-	w("version-pypi.go parseLetterVersion: "+showPairs(t.PyPILetterAliases), "gen_pypi_letter_aliases", "list (list N * list N)", pairs(t.PyPILetterAliases))
-	w("version-pypi.go normalizePyPILegacyPart: "+showPairs(t.PyPILegacyAliases), "gen_pypi_legacy_aliases", "list (list N * list N)", pairs(t.PyPILegacyAliases))
+	w("Debian: rank of a character of a non-digit run, indexed by its first byte (digits: unused)", "gen_debian_byte_weights", "list Z", cf.List(bw))
+	w("PyPI: spellings of the PEP 440 pre / post / dev letters: "+showPairs(t.PyPILetterAliases), "gen_pypi_letter_aliases", "list (list N * list N)", pairs(t.PyPILetterAliases))
+	w("PyPI: spellings of legacy parts: "+showPairs(t.PyPILegacyAliases), "gen_pypi_legacy_aliases", "list (list N * list N)", pairs(t.PyPILegacyAliases))
 
-	// strings.ToLower on non-ASCII text goes through unicode.ToLower: the toolchain's case table for the code points
-	// below the limit (Latin-1, Latin Extended-A/B, IPA, Greek, Cyrillic), as (code point, lower case) pairs
 	const lowerLimit = 0x530
 	var lp []string
 	for r := rune(0x80); r < lowerLimit; r++ {
@@ -569,14 +529,13 @@ func main() {
 	w("Go unicode.ToLower (toolchain table) on U+0080..U+052F, pairs that differ from the identity", "gen_unicode_lower_pairs", "list (N * N)", "["+strings.Join(lp, "; ")+"]%N")
 	w("code points at or above this limit are NOT case-mapped by the model", "gen_unicode_lower_limit", "N", fmt.Sprintf("%d%%N", lowerLimit))
 
-	// identity of this table set: lets the check verify that a compiled Generated_Tables.vo really comes from this text
-	// (file times are not reliable: other processes restore the committed copy)
 	sum := sha256.Sum256([]byte(sb.String()))
 	id := new(big.Int).SetBytes(sum[:7])
 	fmt.Fprintf(&sb, "(* identity of the tables above (first 56 bits of their SHA-256) *)\nDefinition gen_tables_id : N := %s%%N.\n", id.String())
+
 	if *out != "" {
 		old, _ := os.ReadFile(*out)
-		if string(old) != sb.String() { // keep the mtime when nothing changed (no needless rebuild)
+		if string(old) != sb.String() {
 			if err := os.WriteFile(*out, []byte(sb.String()), 0o644); err != nil {
 				fatal("%v", err)
 			}
@@ -591,7 +550,7 @@ func main() {
 			fatal("%v", err)
 		}
 	}
-	fmt.Printf("tables: maven_keywords=%d maven_aliases=%d+%d alpine_suffixes=%d pad=%d packagist=%d pypi=%d+%d\n",
-		len(t.MavenKeywordOrder), len(t.MavenAliases), len(t.MavenAliasesBeforeNum), len(t.AlpineSuffixOrder), t.AlpineSuffixPadWeight,
+	fmt.Printf("tables (probed): maven_keywords=%d maven_aliases=%d+%d alpine_suffixes=%d pad=%d packagist=%d pypi=%d+%d\n",
+		len(t.MavenKeywordOrder), len(t.MavenAliases), len(t.MavenAliasesBeforeNum), len(t.AlpineSuffixWeights), t.AlpineSuffixPadWeight,
 		len(t.PackagistPrefixWeights), len(t.PyPILetterAliases), len(t.PyPILegacyAliases))
 }
